@@ -74,6 +74,7 @@ func RunWorker(spec WorkerSpec) *WorkerResult {
 		return res
 	}
 	t0 := time.Now()
+	deepTier = spec.Tier == "thorough"
 	st := res.Stats
 	st.Tracing = spec.Trace
 	if spec.MaxViol == 0 {
